@@ -249,6 +249,7 @@ FIXED = [
     {"world": "s3cas", "nprior": 1, "txs": [{"op": "append", "preaged": True, "late": True}]},
     {"world": "local", "nprior": 1, "gc_twice": True, "txs": [{"op": "multi", "preaged": True}]},
     {"world": "s3cas", "nprior": 1, "gc_twice": True, "slow": True, "txs": [{"op": "append"}]},
+    {"world": "local", "nprior": 1, "slow": True, "depth2": True, "txs": [{"op": "append"}]},
 ]
 
 
@@ -264,12 +265,18 @@ def run_enum(task):
         for i in range(1, int(D * 1.15) + 2):
             for j in range(n):
                 scheds.append({"order": order, "preempt": [[i, j]]})
+    if sc.get("depth2"):
+        # the transaction is parked at decision i, the collector runs k decisions (into its sweeps), the transaction runs to completion
+        # (commits and clears its markers), then the collector finishes: whatever the collector learnt before must still protect / be re-read
+        for i in range(1, min(D, 70) + 1):
+            for k in range(1, 81):
+                scheds.append({"order": [1, 0], "preempt": [[i, 0], [i + k, 1]]})
     for idx, schd in enumerate(scheds):
         if idx % task["nshard"] != task["shard"]:
             continue
         case = {"kind": "sched", "sc": sc, "schedule": schd, "seed": 1}
         o = run_case(case)
-        res.case(key=chash(case), nontrivial=o["nontrivial"], labels=sorted(set(o["labels"])) + ["enum-depth1"], sample=case if o["nontrivial"] and idx % 31 == 0 else None)
+        res.case(key=chash(case), nontrivial=o["nontrivial"], labels=sorted(set(o["labels"])) + ["enum-depth2" if len(schd.get("preempt", [])) == 2 else "enum-depth1"], sample=case if o["nontrivial"] and idx % 31 == 0 else None)
         for b, w in o["violations"]:
             res.violation(b, w + f" [scenario {sc}, schedule {schd}]", case)
     res.extra["depth1_enumeration_complete_for_fixed_scenarios"] = True
@@ -295,8 +302,9 @@ def pct_case(draw):
 def plan(tier, seed):
     tasks = []
     for sc in FIXED:
-        for s in range(3):
-            tasks.append({"kind": "enum", "sc": sc, "shard": s, "nshard": 3})
+        ns = 12 if sc.get("depth2") else 3
+        for s in range(ns):
+            tasks.append({"kind": "enum", "sc": sc, "shard": s, "nshard": ns})
     n = 150 if tier == "quick" else 3000
     for s in range(4 if tier == "quick" else 16):
         tasks.append({"kind": "pct", "n": n, "seed": seed * 1000 + s, "tier": tier})
